@@ -15,20 +15,28 @@ class Stub(BaseEstimator, ClassifierMixin):
         self.thr = thr
         self.log_id = log_id
 
+    @staticmethod
+    def _col(X, name, pos):
+        # data frames are read by column name (the order of feature columns is the caller's business), arrays by position
+        if hasattr(X, "columns"):
+            return np.asarray(X[name])
+        return np.asarray(X)[:, pos]
+
     def fit(self, X, y):
-        LOG.setdefault(self.log_id, []).append(("fit", tuple(int(v) for v in np.asarray(X)[:, 2])))
+        LOG.setdefault(self.log_id, []).append(("fit", tuple(int(v) for v in self._col(X, "id", 2))))
         self.classes_ = np.array([0, 1])
         return self
 
     def predict(self, X):
-        X = np.asarray(X)
-        LOG.setdefault(self.log_id, []).append(("predict", tuple(int(v) for v in X[:, 2])))
-        return (X[:, 0] > self.thr).astype(int)
+        LOG.setdefault(self.log_id, []).append(("predict", tuple(int(v) for v in self._col(X, "id", 2))))
+        return (self._col(X, "x", 0) > self.thr).astype(int)
 
 
 def margin(det, sample, clf):
-    """user-supplied margin inclusion signal: pure function of the second feature"""
-    return 1 if abs(sample[1]) <= 1 else 0
+    """user-supplied margin inclusion signal: pure function of feature "m" (located through the detector's
+    current reference columns, which is the order in which the harness presents samples)"""
+    cols = list(det.reference_batch_features.columns)
+    return 1 if abs(sample[cols.index("m")]) <= 1 else 0
 
 
 def fold_stats(rows, folds):
